@@ -477,15 +477,15 @@ fn load(input: &str) -> Option<Link> {
     Link::load(input).ok()
 }
 
-/// what the library makes of the link argument (once per distinct argument)
-fn classify_link(input: &str) -> (LinkClass, Option<Link>) {
+/// what the library makes of the link argument under the given flags (once per distinct triple):
+/// the cheapest complete library call, integral Khovanov homology with h = t = 0
+fn classify_link(input: &str, mirror: bool, reduced: bool) -> (LinkClass, Option<Link>) {
     let s = input.to_string();
     let r = guard_timeout(15, move || {
         let l = load(&s)?;
-        // the cheapest complete library call: integral Khovanov homology
-        let kh = KhHomology::<i64>::new(&l, &0, &0, false);
+        let l = if mirror { l.mirror() } else { l };
+        let kh = KhHomology::<i64>::new(&l, &0, &0, reduced);
         let _ = kh.into_bigraded();
-        let _ = KhHomology::<i64>::new(&l.mirror(), &0, &0, true);
         Some(l)
     });
     match r {
@@ -524,6 +524,13 @@ fn documented_supported(c: &Case) -> bool {
         Cmd::Kh => (std && small_int) || (field && (c.cval == "H" || (c.cval == "0,T" && !c.reduced))),
         Cmd::Ckh => (std && small_int) || (std && (c.cval == "H" || ((c.cval == "0,T" || c.cval == "H,T") && !c.reduced))),
     }
+}
+
+/// (h, t) homogeneous for the q-grading (deg h = -2, deg t = -4; deg H = -2, deg T = -4)
+fn homogeneous(cval: &str) -> bool {
+    let (h, t) = match cval.rfind(',') { Some(p) => (&cval[..p], &cval[p + 1..]), None => (cval, "0") };
+    let zero = |s: &str| s.parse::<i64>().map(|v| v == 0).unwrap_or(false);
+    (zero(h) || h == "H") && (zero(t) || t == "T" || t == "H^2" || t == "H^{2}")
 }
 
 struct Features { poly: bool, qint: bool }
@@ -689,11 +696,11 @@ fn main() {
     eprintln!("{} process runs in {:.1}s", cases.len(), t0.elapsed().as_secs_f64());
 
     // ---- evaluate
-    let mut link_cache: HashMap<String, (LinkClass, Option<Link>)> = HashMap::new();
+    let mut link_cache: HashMap<(String, bool, bool), (LinkClass, Option<Link>)> = HashMap::new();
     let mut exp_cache: HashMap<(Cmd, String, String, String, bool, bool, String, bool), Expect> = HashMap::new();
     for (c, o) in cases.iter().zip(outs.iter()) {
         let desc = c.text();
-        let (lclass, link) = link_cache.entry(c.link.clone()).or_insert_with(|| classify_link(&c.link)).clone();
+        let (lclass, link) = link_cache.entry((c.link.clone(), c.mirror, c.reduced)).or_insert_with(|| classify_link(&c.link, c.mirror, c.reduced)).clone();
         sink.count(&format!("cmd.{}", c.cmd.s()));
         sink.count(&format!("ctype.{}", if CTYPES.contains(&c.ctype.as_str()) { c.ctype.as_str() } else { "other" }));
         sink.count(&format!("link.{}", lclass.s()));
@@ -751,20 +758,51 @@ fn main() {
                                 sink.oracle(false, "the table's groups are over a known coefficient ring", &desc, &format!("symbol {:?}: {}", sym, trunc(&o.stdout, 300))),
                             (Some((b, v)), Some(l), _) => {
                                 sink.oracle(b == c.ctype, "the table is over the coefficient type requested with -t", &desc, &format!("printed ring {}", ring_tag(b, v)));
-                                let lm = if c.mirror { l.mirror() } else { l.clone() };
+                                let lm = l.clone();   // already mirrored
                                 let key = (c.cmd, b.to_string(), v.to_string(), c.cval.clone(), c.reduced, tab.bigraded, c.link.clone(), c.mirror);
                                 let e = exp_cache.entry(key).or_insert_with(|| expect(c.cmd, b, v, &lm, &c.cval, c.reduced, tab.bigraded)).clone();
                                 match e {
                                     Expect::Groups(esym, eg) => {
                                         nontrivial = true;
                                         sink.oracle(Some(&esym) == sym.as_ref(), "the printed ring symbol is the library's symbol of the ring", &desc, &format!("{:?} vs {}", sym, esym));
-                                        let ok = eg == groups;
-                                        let detail = if ok { String::new() } else {
-                                            let mut d = String::new();
-                                            for (k, g) in &eg { if groups.get(k) != Some(g) { d += &format!("library {:?}={:?} printed {:?}; ", k, g, groups.get(k)); } }
-                                            for (k, g) in &groups { if !eg.contains_key(k) { d += &format!("printed {:?}={:?} library 0; ", k, g); } }
-                                            d
-                                        };
+                                        let mut ok = eg == groups;
+                                        let mut detail = String::new();
+                                        if !ok && c.cmd == Cmd::Ckh {
+                                            // the generator table of the *simplified* complex is not unique: the order of the
+                                            // eliminations follows hash-map iteration order (`ykh ckh 3_1 -c 1` prints two different
+                                            // tables from run to run).  Exact agreement is demanded whenever the library itself is
+                                            // reproducible in-process; otherwise the invariant of the simplification is compared:
+                                            // the Euler characteristic (per q-degree when (h, t) is homogeneous).
+                                            let mut seen = vec![eg.clone()];
+                                            for _ in 0..3 {
+                                                if let Expect::Groups(_, g2) = expect(c.cmd, b, v, &lm, &c.cval, c.reduced, tab.bigraded) {
+                                                    if g2 == groups { ok = true; break }
+                                                    seen.push(g2);
+                                                }
+                                            }
+                                            if ok { sink.count("ckh.matched-on-retry"); }
+                                            let unique = seen.iter().all(|g| *g == seen[0]);
+                                            let hom = homogeneous(&c.cval);
+                                            if !ok && (!unique || !hom) {
+                                                let chi = |g: &BTreeMap<(isize, isize), Group>| -> BTreeMap<isize, i64> {
+                                                    let mut m = BTreeMap::new();
+                                                    for ((i, j), x) in g {
+                                                        let key = if hom { *j } else { 0 };
+                                                        let sgn = if i.rem_euclid(2) == 0 { 1 } else { -1 };
+                                                        *m.entry(key).or_insert(0i64) += sgn * x.rank as i64;
+                                                    }
+                                                    m.retain(|_, v| *v != 0);
+                                                    m
+                                                };
+                                                ok = chi(&eg) == chi(&groups) && groups.values().all(|g| g.tors.is_empty());
+                                                sink.count("ckh.compared-by-euler-characteristic");
+                                                if !ok { detail = format!("Euler characteristic: library {:?} printed {:?}; ", chi(&eg), chi(&groups)); }
+                                            }
+                                        }
+                                        if !ok {
+                                            for (k, g) in &eg { if groups.get(k) != Some(g) { detail += &format!("library {:?}={:?} printed {:?}; ", k, g, groups.get(k)); } }
+                                            for (k, g) in &groups { if !eg.contains_key(k) { detail += &format!("printed {:?}={:?} library 0; ", k, g); } }
+                                        }
                                         sink.oracle(ok, "the table lists exactly the non-zero groups the library computes, in the right (i,j) cells", &desc, &detail);
                                         sink.count_n("cells.compared", eg.len() as u64);
                                     }
